@@ -5,7 +5,7 @@
 import os, sys
 sys.path.insert(0, os.path.join(os.environ.get("AIOFTP_REPO", "/repo"), "src"))
 OBLIGATION = 'aioftp.server:Server.rmd#SEQ::PathConditions.__call__.<locals>.wrapper/backend:exists:authorised'
-MODEL = {'auth_ok!27': False, 'rest!28': 'A', 'real!20': 'OPath!val!0', 'block_size!0': 1, 'logged_done!14': False, 'u_cur_home!17': 'Unit("!1!")', 'cwd!18': 'Unit("!2!")', 'u_cur_base!16': 'OPath!val!1', 'restart_offset!10': 0, 'virtual!21': 'Unit("!3!")', 'logged_present!13': True, 'user_done!12': True, 'current_directory_present!15': True, 'current_directory_done!16': True, 'user_present!11': True}
+MODEL = {'rest!28': 'A', 'real!117': 'OPath!val!0', 'u_cur_base!113': 'OPath!val!1', 'logged_done!14': False, 'cwd!115': 'Unit("!3!")', 'restart_offset!10': 0, 'virtual!118': 'Unit("!0!")', 'block_size!0': 1, 'u_cur_home!114': 'Unit("!2!")', 'logged_present!13': True, 'user_done!12': True, 'current_directory_present!15': True, 'current_directory_done!16': True, 'user_present!11': True}
 SOLVER_NOTE = ''
 
 print("obligation", OBLIGATION, "failed; no concrete failing input could be constructed automatically")
